@@ -83,9 +83,10 @@ CACHE = ["_cache"]  # the dispatcher's memo dict, found by role in run()
 
 def run(ctx):
     chk, repo = ctx.chk, ctx.repo
-    from .common import check_loop_variable_leaks
+    from .common import check_loop_variable_leaks, modules_defining
 
-    check_loop_variable_leaks(ctx, "R05.f", ("job_shop_lib.dispatching._dispatcher", "job_shop_lib.dispatching._unscheduled_operations_observer"), "the dispatcher")
+    scope = modules_defining(ctx, "job_shop_lib.dispatching", lambda n: n in ("Dispatcher", "UnscheduledOperationsObserver"))
+    check_loop_variable_leaks(ctx, "R05.f", scope, "the dispatcher")
     CACHE[0] = dispatcher_roles(ctx)["cache"]
     chk.rule("R05.a", "state write -> cache clear before any notify/return, on every path of every Dispatcher method")
     chk.rule("R05.b", "no mutation of an object aliased to a memoised query result (package wide, through parameters)")
